@@ -236,3 +236,81 @@ def enum_compare_edges(prog, body, ch, adt_suffix, field, variants_of_interest):
                     edges.add((bb, tgt))
                     sites.append((bb, by_discr.get(v)))
     return edges, sites
+
+
+def compare_edges(body, ch, pred):
+    """Comparisons `a == b` / `a != b` (MIR BinaryOp on scalars, PartialEq::eq/ne calls on aggregates) whose
+    operand expressions satisfy pred(a, b) (tried in both orders).
+    Returns {'eq': edges on which a == b, 'ne': edges on which a != b, 'sites': [bb]}."""
+    out = {"eq": set(), "ne": set(), "sites": []}
+    for bb, blk in enumerate(body.blocks):
+        t = blk["t"]
+        if t["k"] != "switch" or body.tyix(t["dty"])["s"] != "bool":
+            continue
+        e, neg = unwrap_not(ch.origin(t["discr"]))
+        if e[0] == "bin" and e[1] in ("Eq", "Ne"):
+            a, b, is_eq = e[2], e[3], e[1] == "Eq"
+        elif e[0] == "call" and e[1] in ("std::cmp::PartialEq::eq", "std::cmp::PartialEq::ne") and len(e[2]) == 2:
+            a, b, is_eq = e[2][0], e[2][1], e[1].endswith("::eq")
+        else:
+            continue
+        if not (pred(a, b) or pred(b, a)):
+            continue
+        if neg:
+            is_eq = not is_eq
+        out["sites"].append(bb)
+        zero = [tgt for v, tgt in t["targets"] if v == 0]
+        one = [tgt for v, tgt in t["targets"] if v == 1]
+        other = t["otherwise"]
+        false_t = zero if zero else ([other] if one else [])
+        true_t = one if one else ([other] if zero else [])
+        for tgt in true_t:
+            out["eq" if is_eq else "ne"].add((bb, tgt))
+        for tgt in false_t:
+            out["ne" if is_eq else "eq"].add((bb, tgt))
+    return out
+
+
+def order_edges(body, ch, pred):
+    """Ordering comparisons `a < b`, `a <= b`, `a > b`, `a >= b` with pred(a, b) true for the operands as
+    written. Returns list of dict(bb, op, a, b, true_edges, false_edges)."""
+    out = []
+    for bb, blk in enumerate(body.blocks):
+        t = blk["t"]
+        if t["k"] != "switch" or body.tyix(t["dty"])["s"] != "bool":
+            continue
+        e, neg = unwrap_not(ch.origin(t["discr"]))
+        if e[0] == "bin" and e[1] in ("Lt", "Le", "Gt", "Ge"):
+            op, a, b = e[1], e[2], e[3]
+        elif e[0] == "call" and e[1] in ("std::cmp::PartialOrd::lt", "std::cmp::PartialOrd::le", "std::cmp::PartialOrd::gt", "std::cmp::PartialOrd::ge") and len(e[2]) == 2:
+            op, a, b = e[1].rsplit("::", 1)[-1].capitalize(), e[2][0], e[2][1]
+        else:
+            continue
+        flip = {"Lt": "Gt", "Le": "Ge", "Gt": "Lt", "Ge": "Le"}
+        if pred(a, b):
+            pass
+        elif pred(b, a):
+            op, a, b = flip[op], b, a
+        else:
+            continue
+        if neg:
+            op = {"Lt": "Ge", "Le": "Gt", "Gt": "Le", "Ge": "Lt"}[op]
+        zero = [tgt for v, tgt in t["targets"] if v == 0]
+        one = [tgt for v, tgt in t["targets"] if v == 1]
+        other = t["otherwise"]
+        false_t = zero if zero else ([other] if one else [])
+        true_t = one if one else ([other] if zero else [])
+        out.append({"bb": bb, "op": op, "a": a, "b": b,
+                    "true_edges": {(bb, x) for x in true_t}, "false_edges": {(bb, x) for x in false_t}})
+    return out
+
+
+def variant_edges(body, bb, value, all_values=(0, 1)):
+    """edges of the switch at bb taken exactly when the discriminant equals `value`"""
+    t = body.term(bb)
+    listed = {v: tgt for v, tgt in t["targets"]}
+    if value in listed:
+        return {(bb, listed[value])}
+    if all(v in listed for v in all_values if v != value):
+        return {(bb, t["otherwise"])}
+    return set()
